@@ -87,11 +87,18 @@ def local(i):
 def cycle_obs(fn, *args):
     """Observation that distinguishes a cycle report from other failures."""
     try:
-        with lib.time_limit(PROMPT_S):
-            return lib.norm(fn(*args)), None
-    except lib.CaseTimeout:
-        _SLOW[0] += 1
-        return 'timeout', None
+        try:
+            with lib.time_limit(PROMPT_S):
+                return lib.norm(fn(*args)), None
+        except lib.CaseTimeout:
+            # wall clock: on a machine loaded by other work a millisecond
+            # case can exceed the limit once; a genuine hang does it again
+            try:
+                with lib.time_limit(PROMPT_S):
+                    return lib.norm(fn(*args)), None
+            except lib.CaseTimeout:
+                _SLOW[0] += 1
+                return 'timeout', None
     except RecursionError as exc:
         return 'raise:RecursionError', exc
     except MemoryError as exc:
